@@ -1,6 +1,6 @@
 SPECIFICATION Spec
 CONSTANTS
-  Impl = "asis"
+  Impl = "pinned"
   ExcludeKF = FALSE
   KindSet = {"layer", "ubf"}
   NBrSet = {2}
@@ -12,6 +12,8 @@ CONSTANTS
   BigN = 0
   Acts = {"SetAlpha"}
   D = 4
+  NameFamily = "plain"
+  NameImpl = "asis"
 INVARIANT C03_ExportSucceeds
 INVARIANT C03_ExportIsWinner
 INVARIANT C03_KeptModules
